@@ -59,9 +59,22 @@ class C09(EgSpec):
         # the same probes on e-graphs that carry an analysis (MinSize / Depth): pending entries of kind OnlyAnalysis exist only there;
         # half of the histories plant a parent that uses both classes of a later union of different-sized classes
         {'name': 'analysis', 'component': 'eg9', 'config': 'default', 'gen_extra': ['an'], 'quick': 300, 'thorough': 6000},
+        # the executable premise of C09_checked_reinsertion_is_identity (every handle still represents its term: handles_repb) evaluated
+        # by the model on explored histories (machine egc)
+        dict(EGC_STREAM, quick=100, thorough=2000),
     ]
 
+    def model_input(self, stream, case, impl_obs):
+        if stream['name'] == 'invariant':
+            return core.sx_show(['egc'] + core.sx_parse(case)[1:])
+        return case
+
     def evaluate(self, stream, case, impl_obs, model_obs, ctx):
+        if stream['name'] == 'invariant':
+            bad = egc_verdict(model_obs, ['handles-rep', 'invb', 'handles-cover', 'self-symmetries'])
+            if bad:
+                return [('differs', 'reinsertion-premise', 'on this history the executable premise of the proved re-insertion theorem is false in the model: %s (%s)' % (bad, model_obs.strip()), {})]
+            return []
         pc, pi = core.sx_parse(case), core.sx_parse(impl_obs)
         r = predicate(pc, pi)
         if r:
@@ -75,11 +88,15 @@ class C09(EgSpec):
 
     def nontrivial(self, stream, case, impl_obs):
         pc = core.sx_parse(case)
+        if stream['name'] == 'invariant':
+            return hist_nontrivial(pc)
         kinds = [p[1] if isinstance(p[1], str) else p[1][0] for p in pc[5][1:]]
         return any(o[0] == 'union' for o in pc[3][1:]) and any(k in ('alpha', 'renamed', 'via-union') for k in kinds)
 
     def distribution(self, stream, cases, impl):
         d = {}
+        if stream['name'] == 'invariant':
+            return {'invariant-histories': len(cases)}
         for c in cases:
             pc = core.sx_parse(c)
             for p in pc[5][1:]:
